@@ -31,7 +31,7 @@ CHECKS = {
    text='C04_partial / C04_prov / C04_spine_* / C04_redirect / C04_word_span (Props/C04*.lean, 5400 lines): under TokText (the text under a delivered token\'s span, continuations removed, is its spelling up to four explicit residues = defects D31, D32, D31+D32 and NEWLINE over here-document bodies; validated by #eval at every build on 1173 corpus and 3730 grid strings with all suffixes in both modes, 0 failures; not proved from the tokenizer) every reserved-word, operator, pipe, redirect, word and assignment node at any depth is built from delivered tokens of the parser run that built it; operator, pipe and reserved-word nodes outside words carry exactly their text up to the recorded residues; a redirect consists of its first, operator and target tokens (numeric fd = a NUMBER spanning digits that denote it); a word node spans one token and its parts satisfy C07.PartsOK in that token\'s value (value_slice, dollar_text). Per input: Spec.textOK (Lean): per kind, the source under a node\'s span is the node\'s spelling (operators/reserved words/pipes modulo line continuations, '
         'whole shell words by an independent quote-state scanner, $name/${..}/~/$(..)/`..`/<(..) forms, redirect = fd + operator + target), evaluated on every '
         'node of every returned tree incl. nested substitutions; contexts in which bashlex is known to misplace spans are part of the violation signature.',
-   note=TB + ' TokText is a hypothesis (validated, not proved). The word clauses of textOK (whole word, cut short, starts late), adjacency of fd and operator, and the span of a here-document redirect are outside the theorem (Unlinked) and are decided per input.'),
+   note=TB + ' CAUTION: TokText as currently stated was found FALSE of the model on rare inputs (an escaped backslash directly before a real continuation inside double quotes; the word <() followed by <backslash; regexp/dblparen states), so the theorems that take it are vacuous until the corrected relation lands; C04 is decided per input. TokText is a hypothesis (validated, not proved). The word clauses of textOK (whole word, cut short, starts late), adjacency of fd and operator, and the span of a here-document redirect are outside the theorem (Unlinked) and are decided per input.'),
  'C05': dict(level='proof', technique='Lean 4 proof (C05_total_conditional: the leaves of every part are exactly the delivered tokens; token-source hypothesis discharged, RootEnds left) + specification predicate evaluated on implementation outcomes; model correspondence',
    text='C05_partial / C05_partial_parts / C05_tokens_in_leaves (Props/C05*.lean, LR/SoundOrdH.lean, 3300 lines): given RootEnds (the token-source hypothesis TokLog is discharged for the real tokenizer: tokLog, Props/C05Total.lean), for every input and all options parse returns one part per parser run, in order, and the leaves of each part (Spec.leaves) are exactly the tokens the run consumed, grouped '
         '([fd] operator target = one redirect leaf, here-document bodies attached as their own leaf or inside the extended redirect): no token is duplicated and the only tokens without a leaf are NEWLINEs in five listed grammar positions, each with a kernel-checked witness; defect D19 is characterised exactly (a d19 group) and excluded by a decidable predicate. '
